@@ -227,7 +227,11 @@ func (c *ProgCase) firstKindBefore(i int) string {
 // (in address order) whose value is off brackets the mis-sized statement.
 func (c *ProgCase) culprit(w *Walk, bad Obs, lab map[string]int, limit int) string {
 	// gosk's idea of each label from any observation
-	type lv struct{ idx int; val int64; width int }
+	type lv struct {
+		idx   int
+		val   int64
+		width int
+	}
 	var seen []lv
 	for _, ob := range w.Obs {
 		if ob.Dollar || ob.Stmt >= limit {
